@@ -143,6 +143,28 @@ mut("m20e_pid_clock_stuck", "C20", WRAP, "                *self.time.borrow_mut(
 mut("m20f_pid_cmd_after_update", "C20", WRAP, "                match terminal_data.command {\n                    Some(command) => self.command.borrow_mut().set(command)?,\n                    None => (),\n                }\n                self.pid.borrow_mut().update()?;", "                self.pid.borrow_mut().update()?;\n                match terminal_data.command {\n                    Some(command) => self.command.borrow_mut().set(command)?,\n                    None => (),\n                }")
 
 
+# ---- specificity: semantics-preserving edits (re-association, equivalent control flow). Every check must stay quiet.
+def spec(mid, props, path, old, new, occ=0, note=""):
+    for p_ in props:
+        M.append(dict(id="%s__%s" % (mid, p_), prop=p_, path=path, old=old, new=new, occ=occ, note="SPECIFICITY: must NOT be flagged. " + note))
+
+spec("s01_pid_sum_reordered", ["C04", "C05"], CTRL, "self.kvals.kp * error + self.kvals.ki * self.int_error + self.kvals.kd * drv_error", "self.kvals.kd * drv_error + self.kvals.ki * self.int_error + self.kvals.kp * error")
+spec("s02_pid_trapezoid_reassociated", ["C04"], CTRL, "let int_error_addend = delta_time * (prev_error.value + error) / 2.0;", "let int_error_addend = (prev_error.value + error) / 2.0 * delta_time;")
+spec("s03_integral_reassociated", ["C10", "C05"], MATH, "        let value_addend = Quantity::from(output.time - prev_output.time)\n            * (prev_output.value + output.value)\n            / Quantity::dimensionless(2.0);", "        let value_addend = (prev_output.value + output.value) / Quantity::dimensionless(2.0)\n            * Quantity::from(output.time - prev_output.time);")
+spec("s04_terminal_mean_halves", ["C09", "C08", "C16"], LIB, "(addends[0].assume_init() + addends[1].assume_init()) / 2.0,", "addends[0].assume_init() / 2.0 + addends[1].assume_init() / 2.0,")
+spec("s05_invert_halves", ["C08"], DEV, "let new_state = (state1 - state2) / 2.0;", "let new_state = state1 / 2.0 - state2 / 2.0;")
+spec("s06_gear_reassociated", ["C08"], DEV, "let newstate2 = (x_plus_r_y * self.ratio) / r_squared_plus_1;", "let newstate2 = x_plus_r_y / r_squared_plus_1 * self.ratio;")
+spec("s07_cpid_trapezoid_reassociated", ["C11", "C20"], CTRL, "let error_int_addend = (update_0.error + error) / 2.0 * delta_time;", "let error_int_addend = (update_0.error + error) * delta_time / 2.0;")
+spec("s08_ewma_incremental_form", ["C12", "C05"], CTRL, "            prev_value.value * (Quantity::dimensionless(1.0) - lambda) + output.value * lambda;", "            prev_value.value + (output.value - prev_value.value) * lambda;", note="algebraically equal; rounding differs; exact for lambda in {0,1}? (lambda=1: prev+(x-prev) may differ from x by one rounding)")
+spec("s09_ma_weights_reverse", ["C12"], CTRL, "        for i in 0..self.input_values.len() {\n            value += self.input_values[i].value.clone() * weights[i];\n        }", "        for i in (0..self.input_values.len()).rev() {\n            value += self.input_values[i].value.clone() * weights[i];\n        }")
+spec("s10_datum_add_max", ["C03", "C08"], DATUM, "    fn add(self, other: Self) -> Datum<O> {\n        let output_value = self.value + other.value;\n        let output_time = if self.time >= other.time {\n            self.time\n        } else {\n            other.time\n        };", "    fn add(self, other: Self) -> Datum<O> {\n        let output_value = self.value + other.value;\n        let output_time = core::cmp::max(self.time, other.time);")
+spec("s11_connect_order_swapped", ["C09"], LIB, "    term1.borrow_mut().disconnect();\n    term2.borrow_mut().disconnect();", "    term2.borrow_mut().disconnect();\n    term1.borrow_mut().disconnect();")
+spec("s12_axle_mean_mul_reciprocal", ["C08"], DEV, "            datum /= count as f32;", "            datum *= 1.0 / count as f32;", note="one extra rounding")
+spec("s13_derivative_via_seconds", ["C10"], MATH, "            (output.value - prev_output.value) / Quantity::from(output.time - prev_output.time);", "            (output.value - prev_output.value) * (Quantity::dimensionless(1.0) / Quantity::from(output.time - prev_output.time));", note="one extra rounding")
+spec("s14_latest_ge", ["C02", "C03"], STREAMS, "                        if gotten.time > thing.time {", "                        if gotten.time >= thing.time {", note="tie-breaking among equally new candidates is not fixed by the property")
+spec("s15_settable_set_clone_order", ["C15"], LIB, "        self.impl_set(value.clone())?;\n        let data = self.get_settable_data_mut();\n        data.last_request = Some(value);", "        let keep = value.clone();\n        self.impl_set(value)?;\n        let data = self.get_settable_data_mut();\n        data.last_request = Some(keep);")
+
+
 def sh(cmd, cwd=None, timeout=3600):
     return subprocess.run(cmd, cwd=cwd, shell=True, stdout=subprocess.PIPE, stderr=subprocess.STDOUT, text=True, timeout=timeout)
 
@@ -194,15 +216,17 @@ def main():
                 vio = [l for l in r.stdout.splitlines() if l.startswith("VIOLATION") or l.strip().startswith("signature=")]
                 row["violations"] = vio[:4]
                 row["result"] = "CAUGHT" if r.returncode == 1 else ("MISSED" if r.returncode == 0 else "HARNESS-ERROR")
+                if m["note"].startswith("SPECIFICITY"):
+                    row["result"] = {"CAUGHT": "FALSE-ALARM", "MISSED": "QUIET-OK"}.get(row["result"], row["result"])
                 if r.returncode == 2:
                     row["tail"] = r.stdout[-800:]
         finally:
             sh("git checkout -- .", cwd=REPO)
         print(json.dumps(row), flush=True)
         results.append(row)
-    caught = sum(1 for r in results if r.get("result") == "CAUGHT")
+    caught = sum(1 for r in results if r.get("result") in ("CAUGHT", "QUIET-OK"))
     print("SUMMARY caught=%d of %d" % (caught, len(results)))
-    missed = [r["id"] for r in results if r.get("result") != "CAUGHT"]
+    missed = [r["id"] for r in results if r.get("result") not in ("CAUGHT", "QUIET-OK")]
     print("NOT CAUGHT:", missed)
 
 
